@@ -12,7 +12,7 @@
               try_push_back calls, writes through references, data(), max_size(), independence of a copy. *)
 From Tetl Require Import Lib.Base Lib.Arr C06a.Model C01.Model C01.Spec C01.ModelExt C01.SpecExt.
 From Tetl Require Import C01.ProofsBase C01.ProofsStep C01.ProofsIv C01.ProofsExt C01.ProofsExt2 C01.ProofsStack
-  C01.ProofsIvExt.
+  C01.ProofsIvExt C01.ProofsFast.
 Local Open Scope Z_scope.
 
 (** 1. One-step refinement for all 44 static_vector operations (the 28 of Properties.v and the 16 new ones):
@@ -161,6 +161,21 @@ Theorem C01_inplace_vector_xcontract_fires : forall c s o, Z.of_nat c < 2 ^ 63 -
   iv_xspec_step (Z.of_nat c) (abs s) o = None -> iv_xstep s o = Contract.
 Proof. intros c s o Hc. exact (iv_xstep_contract_fires c Hc s o). Qed.
 Print Assumptions C01_inplace_vector_xcontract_fires.
+
+(** 8. The functions the correspondence run executes.  The extracted model is slow on long runs of appends (sizes are
+    unary numbers, the capacity is recomputed as the length of the storage list at every call), so the driver runs
+    xrun_fast / iv_xrun_fast, which replace  insert(end(), n, x)  and a run of try_push_back calls by the closed form
+    fill_fast and are otherwise xstep / iv_xstep.  They return EXACTLY the same results as xrun / iv_xrun from every
+    state satisfying the invariant — in particular from the two fresh vectors every case starts with. *)
+Theorem C01_fast_model_equal : forall pred c ops s, Z.of_nat c < 2 ^ 63 -> inv c (fst s) -> inv c (snd s) ->
+  xrun_fast pred s ops = xrun pred s ops.
+Proof. intros pred c ops s Hc. exact (xrun_fast_eq c Hc pred ops s). Qed.
+Print Assumptions C01_fast_model_equal.
+
+Theorem C01_inplace_vector_fast_model_equal : forall c ops s, Z.of_nat c < 2 ^ 63 -> inv c (fst s) -> inv c (snd s) ->
+  iv_xrun_fast s ops = iv_xrun s ops.
+Proof. intros c ops s Hc. exact (iv_xrun_fast_eq c Hc ops s). Qed.
+Print Assumptions C01_inplace_vector_fast_model_equal.
 
 (** Non-vacuity: capacity-3 histories through the new operations are accepted by the specifications and reproduced
     by the models (static_vector, stack, inplace_vector); the size type changes exactly at 254/255 and 65534/65535
